@@ -125,8 +125,13 @@ fn run_r(ops: &str) -> String {
 
 // ------------------------------------------------------------------ e2e
 
-#[derive(Default)]
-struct BLog(RefCell<Vec<(u8, u32)>>);
+struct BLog(RefCell<Vec<(u8, u32)>>, core::cell::Cell<bool>);
+
+impl Default for BLog {
+    fn default() -> Self {
+        BLog(RefCell::new(Vec::new()), core::cell::Cell::new(false))
+    }
+}
 
 struct BHandler<'a>(&'a BLog);
 
@@ -146,6 +151,13 @@ impl ExchangeHandler for BHandler<'_> {
             self.0 .0.borrow_mut().push((kind, id));
             if reliable {
                 exchange.acknowledge().await?;
+            }
+            if self.0 .1.get() && kind == 1 {
+                // option `reply=1`: after the explicit (stand-alone) acknowledgement a reliable
+                // reply on the same exchange
+                let mut reply = [9u8, 0, 0, 0, 0];
+                reply[1..5].copy_from_slice(&id.to_le_bytes());
+                exchange.send(MessageMeta::new(PROTO, 9, true), &reply).await?;
             }
         }
     }
@@ -174,6 +186,7 @@ struct ECase {
     slow_ms: u64,
     others_at_ms: Option<u64>,
     evict_at_ms: Option<u64>,
+    reply: bool,
 }
 
 /// a link on which every send takes `ms` (a slow radio): the TX buffer stays taken that long
@@ -223,6 +236,7 @@ fn parse_e(f: &[&str]) -> ECase {
         slow_ms: 0,
         others_at_ms: None,
         evict_at_ms: None,
+        reply: false,
     };
     for kv in &f[2..] {
         let (k, v) = kv.split_once('=').unwrap();
@@ -234,6 +248,7 @@ fn parse_e(f: &[&str]) -> ECase {
             "slow" => c.slow_ms = v.parse().unwrap(),
             "oat" => c.others_at_ms = Some(v.parse().unwrap()),
             "evict" => c.evict_at_ms = Some(v.parse().unwrap()),
+            "reply" => c.reply = v == "1",
             "others" => {
                 let (a, b) = v.split_once(':').unwrap();
                 c.others_after = a.parse().unwrap();
@@ -286,6 +301,8 @@ fn run_e(case: &ECase) -> String {
     let (b_tx, b_rx) = net.attach(B);
     let _stranger = net.attach(STRANGER);
     let blog = BLog::default();
+    blog.1.set(case.reply);
+    let want_reply = case.reply;
     let results: RefCell<Vec<String>> = RefCell::new(Vec::new());
     let marks: RefCell<Vec<usize>> = RefCell::new(Vec::new());
     let net3 = net.clone();
@@ -333,6 +350,14 @@ fn run_e(case: &ECase) -> String {
                 results.borrow_mut().push(cls);
                 if r.is_err() {
                     break;
+                }
+                if want_reply {
+                    // fetch B's reply and acknowledge it
+                    match ex.recv().await {
+                        Ok(rx) => drop(rx),
+                        Err(_) => break,
+                    }
+                    let _ = ex.acknowledge().await;
                 }
             }
             // let late datagrams and acknowledgements settle
@@ -444,13 +469,15 @@ fn run_e(case: &ECase) -> String {
     let _ = &marks;
     let per_msg: Vec<String> = per_ctr.iter().map(|v| v.join(",")).collect();
     let ba_count = tap.iter().filter(|t| t.src == B).count();
+    // datagrams of B that reached A (acknowledgements, replies)
+    let backs = net.delivered().iter().filter(|(s, d, _)| *s == B && *d == A).count();
     let copies = net
         .delivered()
         .iter()
         .filter(|(s, _, l)| *s == A && *l == main_len)
         .count();
     format!(
-        "{} res={} delivered={} acks={} | others={} base={} copies={} asess={} tx={}",
+        "{} res={} delivered={} acks={} | others={} base={} copies={} asess={} backs={} tx={}",
         outcome,
         results.borrow().join("."),
         delivered.join("."),
@@ -459,6 +486,7 @@ fn run_e(case: &ECase) -> String {
         SAI_MS,
         copies,
         a_sessions,
+        backs,
         per_msg.join(";")
     )
 }
@@ -656,6 +684,13 @@ fn generate(tier: &str, seed: u64) -> Vec<String> {
         cases.push(format!("W {} m=2 ab=x ba= others=0:0 evict={}{}", nid(), at, extra));
     }
     cases.push(format!("W {} m=1 ab=x.x.x ba= others=0:0 evict=25", nid()));
+    // (c) the receiver acknowledges explicitly and then answers with a reliable message on the same
+    //     exchange; the stand-alone acknowledgement is lost, the answer (which carries the
+    //     acknowledgement again) arrives: the send succeeds
+    for (ab, ba) in [("", "x"), ("", "x.d"), ("x", "x"), ("", "x.x.d")] {
+        cases.push(format!("W {} m=1 ab={} ba={} others=0:0 reply=1", nid(), ab, ba));
+    }
+    cases.push(format!("W {} m=2 ab= ba=x.d.x others=0:0 reply=1", nid()));
     // (b) a slow link: every send of A keeps the single TX buffer for <slow> ms; another exchange's
     //     message holds the buffer when the back-off expires, and the acknowledgement arrives while the
     //     sender waits for the buffer: the acknowledged message must not be sent again
